@@ -129,7 +129,9 @@ def iter_episode(spec, uid="E", shared=None, events=None):
             path = os.path.join(tmp, f"d{n % spec.get('paths', 3)}.puml")
             if it["op"] == "parse":
                 text = render(it["lines"], it.get("tags", True), it.get("pre", ""), it.get("post", ""))
-                with open(path, "w") as f:
+                if it.get("crlf"):       # the same diagram saved with Windows line ends: the same diagram
+                    text = text.replace("\n", "\r\n")
+                with open(path, "w", newline="") as f:
                     f.write(text)
                 try:
                     # one parser object serves every diagram of the episode (a parse must not depend on earlier ones)
@@ -143,8 +145,8 @@ def iter_episode(spec, uid="E", shared=None, events=None):
                     out, comps, deps = "error", [], []
                     exc = type(e).__name__
                 events.append({"k": "parse", "lines": it["lines"], "tags": it.get("tags", True),
-                               "tagform": tagform_of(it.get("tags", True)), "out": out,
-                               "components": comps, "deps": deps, "text": text})
+                               "tagform": tagform_of(it.get("tags", True)), "crlf": bool(it.get("crlf")), "out": out,
+                               "components": comps, "deps": deps, "text": text.replace("\r", "")})
             elif it["op"] == "deval":
                 if it.get("obj") is not None:
                     # a persistent DiagramRule object keeps reading ITS file: that file is written once and never
